@@ -416,9 +416,11 @@ func (w *world) exercise(h *keyset.Handle, sh *shape, written []string, ctx stri
 	}
 	msg := w.g.Bytes(12, 0, w.msgLen)
 	aux := []byte("atrest-aux")
+	// a handle whose primary is a public key: only the public half was stored
+	publicOnly := strings.HasSuffix(keyTypeName(primaryKey), ".PublicKey") || sh.urls[sh.primary] == stubkm.SigPubURL || sh.urls[sh.primary] == stubkm.HybPubURL
 
 	for _, class := range w.classesOf(sh, written) {
-		if w.cfg.prot == "public" && depth == 0 {
+		if publicOnly {
 			// only the public half was stored: build and poke the public-side primitives
 			ok := false
 			switch class {
